@@ -1095,6 +1095,141 @@ fn c18(args: &Args) -> ! {
     finish(&rep, args)
 }
 
+
+// ================================================================================== C02 (the example multiplex server as caller)
+
+/// The repository's own reference caller of the slice-plus-tail API: `ping --multiplex` (examples/ping,
+/// listen_multiplex). Request streams are written to its socket under enumerated write schedules; the replies must
+/// not depend on the schedule.
+fn c02m(args: &Args) -> ! {
+    let mut rep = Report::new("C02", "the repository's reference caller of the documented slice-plus-tail API, the real `ping --multiplex` example server as a process, one OS schedule per case: pipelined Ping streams {3 small; small + 9000-byte; 8150..8200-byte request (crossing the 8 KiB read size) + small; 60 small; 300 small (quick 120)} x write schedules {one write; a cut at every offset of a window around each message boundary and around 8192 / 16384, with a pause; a cut at every k-th byte (k = 1 for the short stream)}: exactly one pong per ping, in order, with the ping's own string; non-trivial = distinct (stream, schedule)");
+    let ping = Path::new("/verif/.target/repo/debug/ping");
+    if !ping.exists() {
+        machinery("ping example binary missing (the driver builds it)");
+    }
+    let dir = tempfile::Builder::new().prefix("px02").tempdir_in("/dev/shm").or_else(|_| tempfile::tempdir()).unwrap();
+    let sock = dir.path().join("ping.sock");
+    let addr = format!("unix:{}", sock.display());
+    let c = Command::new(ping).arg(format!("--varlink={}", addr)).arg("-m").arg("-t").arg("120").stdin(Stdio::null()).stdout(Stdio::null()).stderr(Stdio::null()).spawn().unwrap_or_else(|e| machinery(&format!("cannot spawn ping: {}", e)));
+    let _srv = Proc::new(c);
+    if !wait_connectable(&addr) {
+        rep.eval(Some("start"));
+        rep.violation("C02/multiplex/not-reachable", "the multiplex example server did not come up", json!({"part": "multiplex"}));
+        finish(&rep, args);
+    }
+    let pingreq = |s: &str| frame(&json!({"method": "org.example.ping.Ping", "parameters": {"ping": s}}));
+    let pad = |n: usize, tag: &str| -> String {
+        // a request of exactly n bytes on the wire (including the NUL)
+        let base = pingreq(tag).len();
+        format!("{}{}", tag, "x".repeat(n.saturating_sub(base)))
+    };
+    let mut streams: Vec<(String, Vec<String>)> = vec![];
+    streams.push(("3small".into(), vec!["a".into(), "b".into(), "c".into()]));
+    streams.push(("small+9000".into(), vec!["s".into(), pad(9000, "L"), "t".into()]));
+    for n in [8150usize, 8191, 8192, 8193, 8200] {
+        streams.push((format!("{}+small", n), vec![pad(n, "B"), "after".into()]));
+    }
+    streams.push(("60small".into(), (0..60).map(|i| format!("p{}", i)).collect()));
+    let many = if args.thorough() { 300 } else { 120 };
+    streams.push((format!("{}small", many), (0..many).map(|i| format!("q{}", i)).collect()));
+    let replay = args.replay_case();
+    let mut idx = 0u64;
+    for (sname, pings) in &streams {
+        let msgs: Vec<Vec<u8>> = pings.iter().map(|p| pingreq(p)).collect();
+        let stream: Vec<u8> = msgs.concat();
+        // cut offsets: windows around message boundaries and around multiples of 8192
+        let mut cuts: Vec<usize> = vec![];
+        let mut off = 0;
+        let mut interesting: Vec<usize> = vec![8192, 16384];
+        for m in &msgs {
+            off += m.len();
+            interesting.push(off);
+        }
+        for c in interesting {
+            for d in -3i64..=3 {
+                let x = c as i64 + d;
+                if x > 0 && (x as usize) < stream.len() {
+                    cuts.push(x as usize);
+                }
+            }
+        }
+        cuts.sort();
+        cuts.dedup();
+        if cuts.len() > 60 {
+            // long streams: every 7th boundary window
+            cuts = cuts.into_iter().enumerate().filter(|(i, _)| i % 7 == 0).map(|(_, c)| c).collect();
+        }
+        let mut schedules: Vec<(String, Vec<usize>)> = vec![("one-write".into(), vec![])];
+        for c in &cuts {
+            schedules.push((format!("cut@{}", c), vec![*c]));
+        }
+        let k = if stream.len() < 200 { 1 } else if stream.len() < 4000 { 37 } else { 1021 };
+        schedules.push((format!("every-{}", k), (1..stream.len()).filter(|i| i % k == 0).collect()));
+        for (schname, sched) in &schedules {
+            idx += 1;
+            let case = json!({"part": "multiplex", "stream": sname, "schedule": schname});
+            if let Some(r) = &replay {
+                if *r != case {
+                    continue;
+                }
+            } else if !args.mine(idx) {
+                continue;
+            }
+            rep.eval(Some(&case.to_string()));
+            if rep.want_sample() {
+                rep.sample(json!({"case": case, "pings": pings.len(), "bytes": stream.len(), "cuts": sched.len()}));
+            }
+            let mut s = match std::os::unix::net::UnixStream::connect(&sock) {
+                Ok(s) => s,
+                Err(e) => {
+                    rep.violation("C02/multiplex/connect", &format!("{}", e), case);
+                    continue;
+                }
+            };
+            let rfd = std::os::unix::io::AsRawFd::as_raw_fd(&s);
+            let mut got: Vec<u8> = vec![];
+            let mut prev = 0;
+            let pause = Duration::from_millis(if sched.len() > 50 { 1 } else { 12 });
+            let mut points = sched.clone();
+            points.push(stream.len());
+            let mut werr = None;
+            for p in points {
+                if let Err(e) = s.write_all(&stream[prev..p]) {
+                    werr = Some(e.to_string());
+                    break;
+                }
+                prev = p;
+                // replies are picked up while writing (a full socket buffer must not dead-lock the exchange)
+                while let Rd::Data(b) = read_fd(rfd, Duration::from_millis(0)) {
+                    got.extend(b);
+                }
+                std::thread::sleep(pause);
+            }
+            let deadline = Instant::now() + Duration::from_secs(6);
+            while count_finals(&got) < pings.len() && Instant::now() < deadline {
+                match read_fd(rfd, Duration::from_millis(100)) {
+                    Rd::Data(b) => got.extend(b),
+                    Rd::Timeout => {}
+                    Rd::Eof => break,
+                }
+            }
+            // anything beyond the expected replies?
+            if let Rd::Data(b) = read_fd(rfd, Duration::from_millis(30)) {
+                got.extend(b);
+            }
+            drop(s);
+            let replies = split_replies(&got);
+            let want: Vec<Value> = pings.iter().map(|p| json!({"parameters": {"pong": p}})).collect();
+            rep.outcome(&format!("{}:{}", sname, replies.len()));
+            if replies != want {
+                let first_bad = replies.iter().zip(want.iter()).position(|(a, b)| a != b).unwrap_or(replies.len().min(want.len()));
+                rep.violation("C02/multiplex/replies-depend-on-write-schedule", &format!("{} pings written as {}: {} replies came back, expected {} (one pong per ping, in order); first difference at reply {}: got {} ; write error {:?}", pings.len(), schname, replies.len(), want.len(), first_bad, replies.get(first_bad).map(|v| v.to_string().chars().take(120).collect::<String>()).unwrap_or("nothing".into()), werr), case);
+            }
+        }
+    }
+    finish(&rep, args)
+}
+
 // ================================================================================== C10 (command-line tool)
 
 fn c10cli(args: &Args) -> ! {
@@ -1190,6 +1325,7 @@ fn main() {
         "c20" => c20(&args),
         "c18" => c18(&args),
         "c10" => c10cli(&args),
+        "c02m" => c02m(&args),
         other => {
             eprintln!("unknown subcommand {:?}", other);
             std::process::exit(2)
